@@ -52,6 +52,8 @@ Definition symctx := list (option text).
 Definition system_ctx : symctx := map Some system_symbols.
 Definition resolve_sid (ctx : symctx) (sid : N) : option symv :=
   if sid =? 0 then Some (SymSid 0)
+  else if N.of_nat (length ctx) <? sid then None     (* beyond every table: same answer as the lookup below, without
+                                                        turning an arbitrarily large SID into a unary number *)
   else match nth_error ctx (N.to_nat (sid - 1)) with
        | Some (Some t) => Some (SymText t)
        | Some None => Some (SymSid sid)
